@@ -13,7 +13,7 @@ import c19_findall as cf  # noqa: E402
 META = {
     "id": "C19",
     "level": "proof",
-    "technique": "Coq proofs over hand models of the findall machinery: _select_sublist partitions the truth assignments; enumerate_branches is a DNF of the node on every acyclic formula (no empty branch, multiplicity = number of branches); the findall/3 and all/3 builtins (collection, stable sort by the max-node heuristic, _select_sublist, add_and, dropping FALSE nodes / the empty list) yield lists of which exactly one holds per assignment = the true proofs in the model's order. Models tied to the real code by differential runs on recorded builtin calls; findall/all programs judged against a possible-world enumerator",
+    "technique": "Coq proofs over hand models of the findall machinery: _select_sublist partitions the truth assignments; enumerate_branches is a DNF of the node on every acyclic formula under every supported valuation and on every (cyclic) formula under every least/stable model (no empty branch; multiplicity = number of branches on acyclic formulas); the findall/3 and all/3 builtins (collection, stable sort by the max-node heuristic, _select_sublist, add_and, dropping FALSE nodes / the empty list) yield lists of which exactly one holds per assignment = the true proofs in the model's order. Models tied to the real code by differential runs on recorded builtin calls; findall/all programs judged against a possible-world enumerator",
     "design_ref": "DESIGN.md §5 C19",
     "text": "Unbounded theorems (any list, any assignment) on the Gallina model of _select_sublist: existence+uniqueness of the satisfied entry and equality of its sublist with the ordered list of true solutions. "
             "The model is compared with the real generator on random (term,node) lists (exact output incl. enumeration order). "
@@ -251,10 +251,17 @@ def judge_call(ctx, src, ci, c, cases, metas, defs):
     if len(lst) > 7:
         ctx.count("call_skipped_more_than_7_proofs")
         return False
-    if not cf.is_acyclic(tgt):
-        ctx.count("call_skipped_cyclic_target")
-        return False
     src_acyclic = cf.is_acyclic(sg)
+    try:   # least-model reading of both formulas must exist (no negation through a cycle)
+        cf.evaluator(tgt, {i: False for i in cf.atom_ids(tgt)})
+        cf.evaluator(sg, {i: False for i in cf.atom_ids(sg)})
+    except cf.Unsupported:
+        ctx.count("call_skipped_negation_through_cycle")
+        return False
+    if not src_acyclic:
+        ctx.count("call_cyclic_findall_target")
+    if not cf.is_acyclic(tgt):
+        ctx.count("call_cyclic_target")
     ids = sorted(set(cf.atom_ids(tgt)) | set(cf.atom_ids(sg)))
     if len(ids) > 8:
         ctx.count("call_skipped_more_than_8_atoms")
@@ -320,9 +327,6 @@ def judge_call(ctx, src, ci, c, cases, metas, defs):
                 % (gname, fuel, pn_tbl, cn_tbl, coq_results, coq_out), "findall_model")
         else:
             ctx.count("call_pn_not_functional")
-        if not src_acyclic:
-            ctx.count("call_cyclic_findall_target")
-            return "cyclic"
         proofs_true = order
 
     # ---- property-level judge by exhaustive assignments (hypotheses AND conclusion of the Coq theorems)
@@ -365,7 +369,11 @@ CYCLE_CLASS = "findall-cyclic-goal-branch-ignores-recursive-call"
 
 def run_machinery(ctx):
     n = ctx.n(150, 3000)
-    progs = [cf.gen_relational_program(ctx.rng) if ctx.rng.random() < 0.35 else cf.gen_rich_program(ctx.rng) for _ in range(n)]
+    progs = []
+    for _ in range(n):
+        r = ctx.rng.random()
+        progs.append(cf.gen_relational_program(ctx.rng) if r < 0.3 else cf.gen_cyclic_program(ctx.rng) if r < 0.5
+                     else cf.gen_rich_program(ctx.rng))
     caps = pl.pmap(_capture, [p[0] for p in progs], jobs=8)
     cases, metas, defs = [], [], []
     for (src, kind), (st, err, calls) in zip(progs, caps):
@@ -382,21 +390,28 @@ def run_machinery(ctx):
             ctx.case(("call", src, ci), nontrivial,
                      sample={"program": src, "results": c.get("results"), "branches": [e[1] for e in c.get("enum", [])],
                              "sorted_list": c.get("lst"), "outputs": c.get("out", [])[:6]})
-    # the cyclic witness: the MODEL must reproduce the real (defective) enumeration; the defect itself is
-    # reported only once the lead has listed the class (otherwise the clean tree could not exit 0)
+    # fixed probe for the repaired defect (class CYCLE_CLASS, status fixed: a VIOLATION if it returns):
+    # the recorded call is judged like every other one (least-model reading of the cyclic findall_target)
+    # and the reported distribution against P(q([])) = 1/4, P(b in L) = P(c in L) = 5/8
     st, err, calls = cf.capture(cf.CYCLIC_WITNESS)
-    if st == "ok" and calls:
-        r = judge_call(ctx, cf.CYCLIC_WITNESS, 0, calls[0], cases, metas, defs)
-        c = calls[0]
-        bad = [(n, brs) for n, brs, _ in c["enum"] if any(set(b) == {5, 7} for _, b in brs)]
-        if r == "cyclic" and bad:
-            ctx.count("cyclic_witness_defect_reproduced")
-            if any(k.get("property") == "C19" and k.get("class") == CYCLE_CLASS for k in ctx.known):
-                ctx.violation("findall/3 over a cyclic goal: enumerate_branches yields the branch e(b,c),e(c,b) for r(b) "
-                              "(the recursive call cut by the cycle guard counts as true); P(q([])) = 0.1875 instead of 0.25",
-                              {"program": cf.CYCLIC_WITNESS, "branches": bad}, klass=CYCLE_CLASS)
-            else:
-                ctx.notes.append("cyclic-goal defect of enumerate_branches reproduced (class %s not yet in known_findings.json: not reported as violation)" % CYCLE_CLASS)
+    res = pl.evaluate(cf.CYCLIC_WITNESS, timeout=60)
+    rep = {"program": cf.CYCLIC_WITNESS}
+    if st != "ok" or not calls or res[0] != "ok":
+        ctx.violation("cyclic findall witness does not evaluate: %r %r" % (err, res[1]), rep, klass=CYCLE_CLASS)
+    else:
+        ok = judge_call(ctx, cf.CYCLIC_WITNESS, 0, calls[0], cases, metas, defs)
+        ctx.case(("cyclic-witness",), ok is True, sample={"program": cf.CYCLIC_WITNESS, "branches": [e[1] for e in calls[0]["enum"]]})
+        dist = {k.replace(" ", ""): v for k, v in res[1].items()}
+        p_empty = dist.get("q([])", 0.0)
+        p_b = sum(v for k, v in dist.items() if "b" in parse_list(k))
+        p_c = sum(v for k, v in dist.items() if "c" in parse_list(k))
+        cut = [(n, brs) for n, brs, _ in calls[0]["enum"] if any(set(b) == {5, 7} for _, b in brs)]
+        if cut or abs(p_empty - 0.25) > 1e-9 or abs(p_b - 0.625) > 1e-9 or abs(p_c - 0.625) > 1e-9 or abs(sum(dist.values()) - 1) > 1e-9:
+            ctx.violation("findall/3 over a cyclic goal: a recursive call cut by the cycle guard of enumerate_branches counts as true "
+                          "(branches through e(b,c),e(c,b) only: %r); P(q([])) = %r (expected 0.25), P(b in L) = %r, P(c in L) = %r (expected 0.625)"
+                          % (cut, p_empty, p_b, p_c), dict(rep, got=dist), klass=CYCLE_CLASS)
+        else:
+            ctx.count("cyclic_witness_ok")
     try:
         bad = ctx.coq_failing(HEADER2 + "\n".join(defs) + "\n", cases, name="fm", shard=250, jobs=4)
     except RuntimeError as e:
@@ -431,8 +446,9 @@ def run(ctx):
                        "non-trivial = >=2 distinct node ids and at least one deterministic or repeated element; "
                        "(b) random propositional programs with findall/3 or all/3 over a predicate with 1-5 ordered clauses over 1-4 probabilistic facts: "
                        "non-trivial = >=3 distinct result lists with non-zero probability; "
-                       "(c) random acyclic programs, 65% propositional (facts, optional AD and deterministic fact, intermediate predicates with negation, p/1 with 1-4 clauses), "
-                       "35% relational (probabilistic/deterministic edges of a DAG, two-step path predicate, compound templates, one call per binding of an outer variable) "
+                       "(c) random programs, 50% propositional (facts, optional AD and deterministic fact, intermediate predicates with negation, p/1 with 1-4 clauses), "
+                       "30% relational (probabilistic/deterministic edges of a DAG, two-step path predicate, compound templates, one call per binding of an outer variable), "
+                       "20% recursive goals over digraphs with cycles (cyclic findall_target, least-model reading) "
                        "under findall/3, all/3, all_or_none/3: every recorded builtin call is compared with ModelBranches and judged by exhaustive assignments: "
                        "non-trivial = >=3 proofs and >=3 output lists")
     ctx.assumptions += ["hand model of _select_sublist tied by sampled differential runs",
